@@ -17,7 +17,7 @@ RULE = ('cases = generated source G-SEL spec x all its feasible final instances 
         'a nested supplementary choice or a source choice inactive in >= 1 architecture; distinct by sha1(case)')
 FUZZ_MODULES = ['adsg_core.graph.sup.dsg', 'adsg_core.graph.choices']   # thorough tier: atheris campaign over these modules (vf/fuzz.py)
 FUZZ_RUNS = 3000
-BUDGET = {'quick': 300, 'thorough': 20000}
+BUDGET = {'quick': 800, 'thorough': 20000}
 
 
 @st.composite
